@@ -4,4 +4,6 @@ MCInfos == {
   << [size |-> <<3, 4, 1>>, chunks |-> << <<2, 2, 1>> >>], [size |-> <<2, 2, 1>>, chunks |-> << <<2, 2, 1>> >>] >>,
   << [size |-> <<5, 3, 2>>, chunks |-> << <<2, 2, 2>>, <<4, 4, 4>> >>] >>,
   << [size |-> <<1, 1, 1>>, chunks |-> << <<4, 4, 4>> >>], [size |-> <<4, 5, 3>>, chunks |-> << <<4, 4, 4>> >>] >> }
+\* exploration without the operation counter: every reachable store state, histories of any length
+NoCounterView == <<info, store, lastRes>>
 ====
